@@ -14,3 +14,7 @@ K = ['K4 too_big_for_nl_max']
 G = ['BoundedOption::validate, read_number, read_enum (class templates with friends, std::string): contracts designed in DESIGN.md, not yet enforced',
      'process_option_line / load_option_file (unknown option => diagnostic, no effect), include cycles, over-long lines: NOT covered',
      'main() calls too_big_for_nl_max() iff nl_max > 0 before any source is read']
+
+sys.path.insert(0, os.path.join(os.path.dirname(os.path.abspath(__file__)), '..', '..', 'tools'))
+import replay_lib  # noqa: E402
+REPLAY = replay_lib.make_replay(replay_lib.scenario_too_big)
